@@ -60,6 +60,9 @@ pub fn live_wal_payloads() -> BTreeMap<String, Vec<Vec<u8>>> {
                 files.sort();
                 for (i, f) in files.iter().enumerate() {
                     let Ok(bytes) = std::fs::read(f) else { continue };
+                    if i == 0 && bytes.len() <= 64 * 1024 {
+                        out.entry("__segment__".to_string()).or_default().push(bytes.clone());
+                    }
                     if let Ok(rec) = cw::recover_wal_segment_bytes(cw::WalSegmentId::from_raw(i as u64 + 1), &bytes, cw::RecoveryAccessMode::ReadOnly) {
                         for t in &rec.report.transactions {
                             for fr in &t.frames {
